@@ -40,11 +40,14 @@ def main():
                     rows.append((m["id"], "-", "-", "BAD-PATTERN(%d matches)" % cnt)); print(rows[-1]); continue
                 open(path, "w").write(src.replace(m["old"], m["new"]))
             pkg = "./" + os.path.dirname(m["file"]) + "/..."
-            t = sh(["go", "test", "-vet=off", "-count=1", "-timeout", "300s", pkg], cwd=wt, env=ENV)
+            if m.get("skip_suite"):
+                t = subprocess.CompletedProcess([], 0, "skipped", "")
+            else:
+                t = sh(["go", "test", "-vet=off", "-count=1", "-timeout", "300s", pkg], cwd=wt, env=ENV)
             if "[build failed]" in t.stdout or "cannot" in t.stdout and "FAIL" in t.stdout and "--- FAIL" not in t.stdout:
                 suite = "nobuild"
             else:
-                suite = "suite-pass" if t.returncode == 0 else "suite-FAIL"
+                suite = ("suite-skipped" if m.get("skip_suite") else "suite-pass") if t.returncode == 0 else "suite-FAIL"
             for prop in m["props"]:
                 t0 = time.time()
                 r = sh([os.path.join(ROOT, "check"), prop, tier], cwd=ROOT, env=dict(ENV, VERIF_REPO=wt), timeout=3600)
